@@ -25,7 +25,7 @@ for pid in ids:
     import ast
     for node in ast.parse(src).body:
         if isinstance(node, ast.Assign) and isinstance(node.targets[0], ast.Name) and \
-                node.targets[0].id in ('LEVEL_TEXT', 'LEVEL_NOTE', 'TECHNIQUE', 'DESIGN_REF'):
+                node.targets[0].id in ('LEVEL_TEXT', 'LEVEL_NOTE', 'LEVEL_NOTE_MINIPY', 'TECHNIQUE', 'DESIGN_REF'):
             meta[node.targets[0].id] = ast.literal_eval(node.value)
     checks.append({
         'property_id': pid,
@@ -36,7 +36,7 @@ for pid in ids:
         'engine': 'coq-props+py2coq+cases-vm',
         'level_claimed': {'category': 'proof', 'text': meta.get('LEVEL_TEXT', ''),
                           'design_ref': meta.get('DESIGN_REF', 'DESIGN.md section 6 ' + pid)},
-        'level_note': meta.get('LEVEL_NOTE', ''),
+        'level_note': meta.get('LEVEL_NOTE', '') + meta.get('LEVEL_NOTE_MINIPY', ''),
         'technique': meta.get('TECHNIQUE', 'Coq theorems over a hand model; translator tie + in-Coq correspondence'),
     })
 
